@@ -25,6 +25,14 @@ Specifications
                            <n> DUP (v), DREP = [n]v, ALIGN n,fill) and for both arguments of PAGE.  Prints per case
                            the context statements, the closers of the optimistic outcome, the command line options,
                            the allowed exit statuses, `heavy`.
+  spec/NegHist(_Gen)       third dimension: HISTORIES of <= 4 statements of one stateful family (stk: PUSHV/POPV/SET over the
+                           name-sorted list of symbol stacks, modelled at pointer level with the list walk shaped like
+                           PushSymbol/PopSymbol and five stack names that sort before / between / after each other and
+                           the default stack; chr: CODEPAGE/CHARSET over the sorted list of code pages; sect, save,
+                           struct, mac, func, enum).  TLC checks on every reached state: list sorted, acyclic and equal
+                           to the set of non-empty stacks, STANDARD code page present, documented exit; and prints the
+                           histories (quick: transition cover, one history per (model state, statement), stratified by
+                           the shape of the structure before the last statement; thorough: every sequence, sampled).
   spec/NegSpace_Trace      (V) stmt-hook events (real stack depths after every line) of the replayed cases (and,
                            thorough, of all 201 golden programs) validated against the statement table.
   spec/CodeFileReader(_MC) byte-stream reader of toolutils.c + tool loops; machine = grammar (doc/file-formats.md),
@@ -48,6 +56,7 @@ Not judged (SPEC-DRIFT at most): which statements are errors (finer `allowed` se
   files, acceptance of malformed hex files by dasl, stack relation of NegSpace_Trace.
 
 Bounds: one varied argument per statement (+ all-arguments variants), <= 600 arguments, one level of context,
+  histories of <= 4 statements within ONE family (no cross-family interleavings), 5 stack / 3 code page names,
   files <= ~100 bytes; quick runs a stratified seed-chosen sample (every op x context at least once).
 NOT covered: raw byte / grammar-blind fuzzing, CPU instruction operands, options of asl other than -q and -L,
   I/O errors, memory exhaustion, inputs longer than the bounds; absence of out-of-bounds accesses is only as good
@@ -59,6 +68,8 @@ Mutations tried (patches in selftest/C03-m*.diff, applied to a scratch copy, `VE
   m3 toolutils.c FormatError: exit(3) -> exit(0)                                     -> VIOLATION x20 (malformed accepted)
   m4 toolutils.c ReadHeaderByte: truncation no longer a format error                 -> VIOLATION x20 (tools hang)
   m5 natpseudo.c DecodeFx: SetMaxCodeLen(Size) instead of (Size << Shift)            -> VIOLATION (`fw 129,1` on COP410)
+  m6 asmpars.c PushSymbol: the two statements of the list walk swapped (cyclic list)  -> VIOLATION (hang on the 4th
+     PUSHV, use after free in ClearStacks); the same swap in NegHist.tla Walk()        -> TLC: StackListOK violated
   spec mutant: Pseudo() accepts a closer without opener silently                     -> NegSpace_MC: ClosersNeverUnderflow violated
   corrupted trace: `std` changed by an ALIGN event / stray ENDSTRUCT without error   -> NegSpace_Trace prints both as BAD
 History: on the pinned tree the exploration found 16 defect families (ALIGN 0, empty symbol name, > 3 function
@@ -66,6 +77,8 @@ History: on the pinned tree the exploration found 16 defect families (ALIGN 0, e
   the code buffer, M16 OpSize[], CP-1600 ZERO, NULL put function in intpseudo.c, the code file reader of all five tools
   (hangs, SIGFPE, out-of-bounds, accepted malformed files), dasl on an empty image, p2hex granularity 255); fixes are in
   proposed_fixes/C03-*.diff, known_findings/C03.json records which are applied ("fixed") and which still are "known".
+  Round 3 (histories, tool option class -f): PUSHV keeps a shallow copy of a string value (use after free / double
+  free), more than 100 distinct -f values overflow FilterBytes[100] -- two more proposed fixes / known entries.
   Round 2 (count classes, -L): symbol list with a page narrower than an entry, WrLstLine's 2500 byte buffer, DN on
   byte-granular targets (IncCurrCodeFill) -- three more proposed fixes / known entries.
 """
